@@ -22,6 +22,10 @@ inductive PV where
   | float (tok : Nat)                   -- a float, identified by a token (repr round-trip is transport)
   | str (s : String)
   | npScalar (i : Int)                  -- `np.generic`; `.item()` gives the Python scalar
+  /-- a NumPy scalar WITHOUT a JSON number form: `.item()` is a Python `complex` (complex64 / complex128)
+  or the NumPy scalar itself (`np.longdouble`, `np.clongdouble`: no Python equivalent).  `tok` identifies
+  the value. -/
+  | npExotic (dtype : String) (tok : Int)
   /-- ndarray: dtype (`str(a.dtype)`, byte order included), shape, and its MEMORY LAYOUT as NumPy has
   it: the element at multi-index `idx` lives at memory position `offset + Σ idx_k · strides_k` (in
   items) of the buffer `mem`.  C order, Fortran order, transposed, strided and reversed views are all
@@ -42,6 +46,14 @@ end
 
 /-- complex dtypes (`str(dtype)` = 'complex64', 'complex128') are never written as plain lists -/
 def isComplexDtype (d : String) : Bool := d.startsWith "complex"
+
+/-- `dtype.char == 'g'`: the C `long double` (`str(dtype)` is 'float128' on x86-64 Linux / macOS, 'float96' on
+32-bit x86); its `tolist()` items are `np.longdouble` objects, not Python floats -/
+def isLongDoubleDtype (d : String) : Bool := d == "float128" || d == "float96"
+
+/-- dtypes whose short 1-D arrays are NOT written as plain lists of numbers (`_CustomEncoder.default`:
+`obj.dtype.kind != 'c' and obj.dtype.char != 'g'`): JSON has no number for their items -/
+def noListDtype (d : String) : Bool := isComplexDtype d || isLongDoubleDtype d
 
 /-- number of items of an array -/
 def prod (shape : List Nat) : Nat := shape.foldl (· * ·) 1
@@ -108,15 +120,17 @@ def findArr (kv : PVDict) : Option PV := findKey "__ndarray__" kv
 
 mutual
 /-- what `json.dump(..., cls=_CustomEncoder)` writes, as a JSON tree (represented in the same
-type): NumPy scalars become Python scalars; 1-D arrays of at most 10 items of a non-complex dtype
+type): NumPy scalars become Python scalars; 1-D arrays of at most 10 items of a non-complex, non-long-double dtype
 become lists of numbers (`tolist()`); other arrays become the marker object holding the base64 of
-the C-contiguous copy, `str(dtype)` and the shape (_misc.py:51-60). -/
+the C-contiguous copy, `str(dtype)` and the shape (_misc.py:51-60); a NumPy scalar without JSON number
+form is written as the 0-d array `np.asarray(obj)`. -/
 def encode : PV → PV
   | .npScalar i => .int i
+  | .npExotic dtype tok => marker dtype [] [tok]
   | .arr dtype shape strides off mem =>
     match shape with
     | [n] =>
-      if n ≤ 10 && !isComplexDtype dtype then .list (ofInts (gather mem shape strides off))
+      if n ≤ 10 && !noListDtype dtype then .list (ofInts (gather mem shape strides off))
       else marker dtype shape (gather mem shape strides off)
     | _ => marker dtype shape (gather mem shape strides off)
   | .list l => .list (encodeList l)
